@@ -109,7 +109,7 @@ def items(tier):
     i = 0
     inputs = INPUTS_T if tier == 'thorough' else INPUTS_Q
     for pi in range(len(progs)):
-        for W in ((2, 3, 4, 8) if tier == 'thorough' else (2, (3, 4, 8)[pi % 3])):
+        for W in ((2, 3, 4, 8) if tier == 'thorough' else ((2, 2, 3, 2, 4, 2, 8)[pi % 7],)):
             out.append((i, pi, W, inputs if tier == 'thorough' else inputs[(pi % 2)::2] + inputs[:1]))
             i += 1
     return out
@@ -145,7 +145,7 @@ def coverage(total, tier):
              'write overload, write of the most negative integer as the deepest call, recursion, try/stop with defeat two calls deep, nested literal with call elements)',
         'inputs': '(length n, index i) pairs incl. negative, zero, last, one past, far out of range: ' + str(INPUTS_T if tier == 'thorough' else INPUTS_Q),
         'stack_sizes': 'every size from 1 word up to S_min+8, plus 256 and 1024 words',
-        'word_sizes': '2,3,4,8' if tier == 'thorough' else '2 plus one of 3,4,8 per program',
+        'word_sizes': '2,3,4,8' if tier == 'thorough' else 'one per program, rotating 2,2,3,2,4,2,8',
     })
     cov['sweeps'] = total.get('sweeps', 0)
     cov['overflow_runs'] = total.get('overflow_runs', 0)
